@@ -378,26 +378,45 @@ C20_CONFIGS = [
 ]
 
 
+# quick tier per configuration: (harness, measured GB).  Measured on this machine: in the
+# fixed-buffer configurations (core*) the one-step shapes that concretise a parser need
+# 14-20+ GB, in the Vec configurations the 1024-byte boundary run needs 12-18+ GB; the
+# quick tier takes the affordable combination, the rest is thorough.
+C20_QUICK = {
+    "default": [("c02::run_from_new_2", 3), ("c02::step_csi_param_2", 7), ("c02::step_osc_2", 4)],
+    "none": [("c02::run_from_new_2", 3), ("c02::step_ground", 6), ("c02::step_osc_2", 4)],
+    "core": [("c02::step_osc_2", 8), ("c20::osc_boundary_1023", 8), ("c20::osc_boundary_1024", 8)],
+    "core_utf8": [("c02::step_osc_2", 8)],
+}
+
+
 def jobs_c20(tier, seed):
     jobs = []
-    common = ["c02::run_from_new_2", "c02::step_ground", "c02::step_csi_param_2", "c02::step_osc_2"]
-    boundary = ["c20::osc_boundary_1023", "c20::osc_boundary_1024"]
-    if tier == "thorough":
-        common += ["c02::transition_table", "c02::step_escape", "c02::step_dcs_passthrough", "c02::step_osc_0", "c02::run_from_new_3", "c02::step_osc_16", "c02::step_csi_param_32", "c02::step_csi_intermediate", "c02::step_dcs_param", "c02::step_osc_15", "c02::step_sos", "c02::step_csi_entry"]
-        boundary += ["c20::osc_boundary_1022", "c20::osc_boundary_1023_cut", "c20::osc_boundary_1024_cut"]
-    for cfg, feats in C20_CONFIGS:
+
+    def mk(cfg, feats, h, gb, optional=False):
         f = ["c20", "seven_bit"] + feats
-        for h in common:
-            heavy = h.endswith(("new_3", "_32", "_16"))
-            j = J(h, crate="parse", features=f, timeout_s=3600 if heavy else 1800, mem_gb=30 if heavy else 20, expect_gb=16 if heavy else 5, optional=heavy, all_covers=False, min_covers=1,
-                  bound=f"[{cfg}] 7-bit input, same reference model as every other configuration: {h}")
-            j.label = f"{cfg}:{h}"
-            jobs.append(j)
-        for h in boundary:
-            j = J(h, crate="parse", features=f, timeout_s=2400, mem_gb=20, expect_gb=6,
-                  bound=f"[{cfg}] OSC payload at the fixed buffer's limit: two arbitrary 7-bit bytes, terminator, then a CSI sequence")
-            j.label = f"{cfg}:{h}"
-            jobs.append(j)
+        what = ("OSC payload at the fixed buffer's limit: two arbitrary 7-bit bytes, terminator, then a CSI sequence" if h.startswith("c20::")
+                else f"7-bit input, same reference model as every other configuration: {h}")
+        j = J(h, crate="parse", features=f, timeout_s=3600 if optional else 1500, mem_gb=45 if gb > 12 else 20, expect_gb=gb, optional=optional,
+              all_covers=False, min_covers=1, bound=f"[{cfg}] {what}")
+        j.label = f"{cfg}:{h}"
+        return j
+
+    for cfg, feats in C20_CONFIGS:
+        quick = C20_QUICK[cfg]
+        for h, gb in quick:
+            jobs.append(mk(cfg, feats, h, gb))
+        if tier == "thorough":
+            done = {h for h, _ in quick}
+            common = ["c02::run_from_new_2", "c02::step_ground", "c02::step_csi_param_2", "c02::step_osc_2", "c02::transition_table", "c02::step_escape", "c02::step_dcs_passthrough",
+                      "c02::step_osc_0", "c02::step_csi_intermediate", "c02::step_dcs_param", "c02::step_sos", "c02::step_csi_entry",
+                      "c20::osc_boundary_1022", "c20::osc_boundary_1023", "c20::osc_boundary_1024", "c20::osc_boundary_1023_cut", "c20::osc_boundary_1024_cut"]
+            heavy = ["c02::run_from_new_3", "c02::step_osc_16", "c02::step_csi_param_32", "c02::step_osc_15"]
+            for h in common:
+                if h not in done:
+                    jobs.append(mk(cfg, feats, h, 25, optional=h.startswith("c20::") and cfg != "core"))
+            for h in heavy:
+                jobs.append(mk(cfg, feats, h, 30, optional=True))
     return jobs
 
 
@@ -642,7 +661,7 @@ REGISTRY = {
         "jobs": jobs_c20,
         "level": "model_checking",
         "functions": ["anstyle_parse::Parser::advance and everything below it, built four times: features {utf8} (default), {core}, {core,utf8}, {} ", "ArrayVec-backed osc_raw (core) incl. the is_full early return", "AsciiParser::add (unreachable! shown unreachable on 7-bit input)"],
-        "bounds": {"quick": "per configuration: lock-step runs of <=2 arbitrary 7-bit bytes from Parser::new(); one-step refinement from arbitrary states Ground/CsiParam/OscString; OSC payload at lengths 1023 and 1024 (concrete filler) followed by two arbitrary 7-bit bytes, BEL and a CSI sequence", "thorough": "more states, runs of 3 bytes, the 32-parameter and 16-field limits, boundary lengths 1022..1024 with and without a completed field"},
+        "bounds": {"quick": "10 queries, the affordable combination per configuration (all against the same reference model): default and no-default-features: lock-step runs of <=2 arbitrary 7-bit bytes from Parser::new() and one-step refinement from arbitrary states CsiParam or Ground and OscString; core: one-step refinement from OscString and the OSC payload at lengths 1023 and 1024 (concrete filler) followed by two arbitrary 7-bit bytes, BEL and a CSI sequence; core+utf8: one-step refinement from OscString", "thorough": "every harness in every configuration (the one-step shapes in the fixed-buffer configurations need 14-20+ GB each, the boundary run in the Vec configurations 12-18+ GB), more states, runs of 3 bytes, the 32-parameter and 16-field limits, boundary lengths 1022..1024 with and without a completed field"},
         "outside": "OSC payloads of 1000..1100 bytes fed byte by byte from new() (the step lemma at the boundary lengths stands in for them); payload content other than the filler byte at the boundary (capacity logic does not read it)",
         "assumptions": ["equality across configurations follows by transitivity through the shared reference model vmodels::vt (fixed-buffer variant: payload truncated at 1024 bytes, separators arriving while full dropped)"],
     },
